@@ -139,15 +139,20 @@ pub fn gen(out: &mut dyn std::io::Write, thorough: bool, seed: u64) {
         let mut entries: Vec<(String, Vec<i32>, String)> = vec![];
         for d in &m.dict {
             match r.below(3) {
-                0 => entries.push(d.clone()),
+                0 => {
+                    entries.push(d.clone());
+                    if r.chance(1, 8) {
+                        entries.push((d.0.clone(), d.1.iter().map(|x| x / 2).collect(), "again".into()));
+                    }
+                }
                 1 => entries.push((d.0.clone(), d.1.iter().map(|x| x.wrapping_add(r.range(-9, 9) as i32)).collect(), "edited".into())),
                 _ => {}
             }
         }
         for _ in 0..r.below(3) {
             let w: String = (0..r.range(1, 3)).map(|_| *r.pick(&alpha)).collect();
-            if entries.iter().any(|e| e.0 == w) {
-                continue;
+            if entries.iter().any(|e| e.0 == w) && r.chance(1, 2) {
+                continue; // otherwise: a second record for the same word (their weights add up)
             }
             let l = w.chars().count();
             let n_w = if i % 17 == 0 { l } else { l + 1 };
